@@ -41,6 +41,20 @@ def scenarios(thorough):
         for e in (errno.EHOSTUNREACH, errno.EINVAL):
             out.append(cc.mk([P(1), P(2)], lookahead=la, workers=2, faults={"send": [e] * 4}, drains=False,
                              name="persistent send fault %s with pipelined request la=%d" % (errno.errorcode[e], la)))
+    # a partial follower buffered before the decision, its rest arriving afterwards
+    for cname, creq in (("close", {"k": 1, "kind": "close"}), ("http10", {"k": 1, "kind": "http10"})):
+        for la in (1, 2):
+            out.append(cc.mk([creq, P(2)], lookahead=la, workers=2, split="cutfollower", name="%s then a follower cut in its head, la=%d" % (cname, la)))
+            out.append(cc.mk([creq, {"k": 2, "kind": "body", "blen": 20}], lookahead=la, workers=2, split="cutfollower", name="%s then a follower with a body, cut, la=%d" % (cname, la)))
+    # the I/O thread tears the connection down after a send error while the worker is paused between two requests
+    # (backlog above the mark at the end of the first, follower already queued)
+    for la in (1, 2):
+        out.append(cc.mk([P(1), P(2)], lookahead=la, workers=1, room=30, extra_client=[["read_after_block", 1, 40], ["read_after_block", 2, 50]], drains=False,
+                         faults={"send": [None, None, None] + [errno.EHOSTUNREACH] * 6}, apps={1: {"chunks": []}, 2: {"chunks": [30]}},
+                         adj={"outbuf_high_watermark": 50}, name="send error while the worker is paused between two requests, la=%d" % la))
+        out.append(cc.mk([P(1), P(2)], lookahead=la, workers=1, room=30, extra_client=[["read_after_block", 1, 40], ["read_after_block", 2, 50]], drains=False,
+                         faults={"send": [None, None, None] + [errno.EHOSTUNREACH] * 6}, apps={1: {"chunks": [60]}, 2: {"chunks": [30]}},
+                         adj={"outbuf_high_watermark": 50}, name="send error while the worker is paused in write_soon, follower queued, la=%d" % la))
     # the application fails with an OSError after the head is out and socket errors are not logged: the truncated
     # response closes the connection all the same
     out.append(cc.mk([P(1), P(2)], lookahead=1, workers=2, apps={1: {"raise_at": 1, "chunks": [3, 3], "exc": "OSError"}}, adj={"log_socket_errors": False},
